@@ -227,3 +227,57 @@ def blocks_calling(fn, rx):
 def successor_after_call(fn, bb):
     t = fn.blocks[bb]["t"]
     return t.get("t")
+
+
+def guarded_since(fn, site_bb, kill_blocks, edge_ok_pred, pass_blocks=()):
+    """True when every path that reaches `site_bb` from the function entry or from a kill block
+    (a block that invalidates the guarded fact, e.g. decrements a counter) crosses, after that kill,
+    an edge for which edge_ok_pred(bb, label, atoms) holds or enters one of pass_blocks (blocks that
+    re-establish the fact, e.g. a refill)."""
+    pass_blocks = set(pass_blocks)
+    # the straight-line segment that ends in the site: `check; counter -= 1; *ptr` consumes the
+    # checked element inside the segment, so changes of the counter within it do not count as kills
+    preds = fn.preds()
+    seg = [site_bb]
+    cur = site_bb
+    for _ in range(16):
+        ps = [p for p, lab in preds.get(cur, []) if p in fn.live]
+        if len(ps) != 1 or len(fn.succ[ps[0]]) != 1 or ps[0] in seg or ps[0] in pass_blocks:
+            break
+        cur = ps[0]
+        seg.append(cur)
+    site_bb = cur
+    kill_blocks = set(kill_blocks) - set(seg)
+
+    def cut(b, lab, tb):
+        if tb in pass_blocks:
+            return True
+        if lab is None or lab[0] == "const":
+            return False
+        return edge_ok_pred(b, lab, fn.edge_atoms(b, lab))
+
+    starts = set(kill_blocks) | {0}
+    # a path "reaches the site" when it enters site_bb; starts are expanded through their successors
+    seen = set()
+    work = []
+    for s in starts:
+        if s not in fn.live:
+            continue
+        if s == site_bb and s == 0:
+            return False
+        for lab, tb in fn.succ[s]:
+            if not cut(s, lab, tb):
+                work.append(tb)
+    while work:
+        b = work.pop()
+        if b in seen:
+            continue
+        seen.add(b)
+        if b == site_bb:
+            return False
+        if b in starts:
+            continue  # covered from that start on its own
+        for lab, tb in fn.succ[b]:
+            if not cut(b, lab, tb):
+                work.append(tb)
+    return True
